@@ -152,7 +152,12 @@ def _c07_align_jobs(tier, func="VerifC07_Alignment"):
     shapes = [(2, 2, 2), (3, 1, 2), (1, 3, 2)] if tier == "quick" else [(2, 2, 3), (3, 3, 2), (3, 1, 3), (1, 3, 3)]
     for qual in (0, 1):
         for (r, c, o) in shapes:
-            jobs.append({"pkgdir": "seq/alignment", "func": func, "params": {"rows": r, "cols": c, "ops": o, "qual": qual}})
+            jobs.append({"pkgdir": "seq/alignment", "func": func, "params": {"rows": r, "cols": c, "ops": o, "qual": qual, "symcells": -1}})
+    # larger grids (rows x columns), mostly fixed letters with the cells of the mask symbolic; symbolic operation string
+    for (r, c, o, mask, qual) in ([(3, 5, 2, 0b100000100, 0), (4, 6, 1, 0b1000000000010, 1)] if tier == "quick" else
+                                  [(3, 5, 2, 0b100000100, 0), (4, 6, 1, 0b1000000000010, 1), (3, 6, 3, 0b10000, 0), (4, 5, 2, 0b1000001, 1)]):
+        jobs.append({"pkgdir": "seq/alignment", "func": func, "params": {"rows": r, "cols": c, "ops": o, "qual": qual, "symcells": mask},
+                     "timeout_s": 900 if tier == "quick" else 3000})
     return jobs
 
 
